@@ -9,6 +9,7 @@ Structural clauses decided (all paths of tracing-core/src/dispatch.rs):
 """
 from rulekit import Facts, where, proj_names
 from rulekit.sym import PathEval, show
+from rulekit.query import drop_blocks, dropped_on_all_exits
 
 D = "tracing_core::dispatch::"
 ORD_RANK = {"Relaxed": 0, "Release": 1, "Acquire": 1, "AcqRel": 2, "SeqCst": 3}
@@ -198,15 +199,8 @@ def r1(ck, F):
         ok = len(sd) == 1 and len(fcall) == 1 and wd.dominates(sd[0], fcall[0])
         if ok:
             guard_local = wd.term(sd[0])["dest"]["l"]
-            drops = [i for i, b in enumerate(wd.blocks) if b["term"]["k"] == "drop" and b["term"]["place"] == {"l": guard_local}]
-            t = wd.term(fcall[0])
-            normal = wd.reachable(t["ret"])
-            unw = wd.reachable(t["unwind"], unwind=True) if isinstance(t.get("unwind"), int) else set()
-            # every path from f() to return passes a drop of the guard; same for unwind to resume
-            ret_avoiding = wd.reachable(t["ret"], avoid=drops)
-            unw_avoiding = wd.reachable(t["unwind"], unwind=True, avoid=drops) if isinstance(t.get("unwind"), int) else {-1}
-            ok = not any(e in ret_avoiding for e in wd.exits()) and \
-                not any(wd.term(b)["k"] == "resume" for b in unw_avoiding if b >= 0) and isinstance(t.get("unwind"), int)
+            drops = drop_blocks(wd, guard_local)
+            ok = not dropped_on_all_exits(wd, fcall[0], drops)
         if ok:
             ck.ok("C02.R1", "with_default restores on return and on panic", fn=wd.path,
                   detail="guard local _%d dropped on both the return and the unwind edge of f()" % guard_local)
